@@ -319,7 +319,8 @@ def case_arith(case, col=None):
         raise Violation("measurement_arithmetic_nominal", f"{t} on {ms}, {q}: nominal {nv!r} (root units), expected {mv!r}")
     # the std-dev tolerance is relative to the size of the individual contributions (cancellations make the result small)
     contrib = _contrib_scale(R, t, ms, q)
-    if abs(sd - want_sd) > 1e-7 * max(contrib, want_sd) + 1e-300:
+    # (second term: where a sum cancels, the rounding error of the nominal value enters the derivative of an enclosing power or product)
+    if abs(sd - want_sd) > 1e-7 * max(contrib, want_sd) + 1e-9 * _abs_scale(R, t, ms, q) * max(m["rel"] for m in ms) + 1e-300:
         kind = "correlated" if rep else "independent"
         raise Violation(f"measurement_arithmetic_std_dev:{kind}", f"{t} on {ms}, {q}: std_dev {sd!r} (root units), first-order propagation gives {want_sd!r}")
     if nmeas and hasattr(r, "_units") and type(r).__name__ != "Measurement" and hasattr(mag, "std_dev"):
@@ -343,6 +344,27 @@ def _mag_scale(R, t, ms, q):
             return abs(eval_model(R, t, ms, q)[0])
         return max([abs(eval_model(R, t, ms, q)[0])] + [_mag_scale(R, c, ms, q) for c in t[1:] if isinstance(c, tuple)])
     except Bad:
+        return 0.0
+
+
+def _abs_scale(R, t, ms, q):
+    """size of the expression if nothing cancelled: |leaf values| combined with +, * and powers"""
+    try:
+        if t[0] in ("m", "q", "n"):
+            return abs(eval_model(R, t, ms, q)[0])
+        if t[0] == "neg":
+            return _abs_scale(R, t[1], ms, q)
+        if t[0] == "pow":
+            s_ = _abs_scale(R, t[1], ms, q)
+            return s_ ** t[2] if t[2] > 0 else abs(eval_model(R, t, ms, q)[0])
+        a, b = _abs_scale(R, t[2], ms, q), _abs_scale(R, t[3], ms, q)
+        if t[1] in "+-":
+            return a + b
+        if t[1] == "*":
+            return a * b
+        vb = abs(eval_model(R, t[3], ms, q)[0])
+        return a / vb if vb else 0.0
+    except (Bad, OverflowError, ZeroDivisionError):
         return 0.0
 
 
